@@ -71,6 +71,44 @@ CLAIMED.update({
          "(backlogs, clones used concurrently) and the C04 monitor judges every observed history.", "5 C15",
          "Coq (C04 theorems instantiated) + lockstep schedule replay with drop (engine L) + monitor"),
 })
+CLAIMED.update({
+ "C09": ("Coq: the registry facts (after unsubscribe not registered, others unaffected and in order, twice = once) and the "
+         "unsubscribe steps of the model (again: nothing happens; direct: removed, one on_unsubscribe in the caller's context). "
+         "Partial: the lifecycle over histories is decided by engine L (unsubscribe at every point relative to snapshot / "
+         "notify / shutdown release, double unsubscribe, channeled) and the C09 monitor; the late notification after "
+         "unsubscribe() (F3) is a listed known finding, witnessed in Coq (Witness.C09_late_notify_refuted) and on the real code.",
+         "5 C09", "Coq registry lemmas + lockstep schedule replay (engine L) + lifecycle monitor with known class F3"),
+ "C10": ("Coq, every reachable world, every subscription channel since its creation: received is an in-order subsequence of "
+         "forwarded, and under BlockOnFull forwarded = received ++ queued; drop policies never wait; DropOldest keeps the newest. "
+         "Partial: own thread and flush-before-return hold by construction of the model's join steps; decided by engine L "
+         "(stalled subscriber, capacities 1..3, all policies, probe that unsubscribe waits) and the C10 monitor.",
+         "5 C10", "Coq channel-stream invariant + lockstep schedule replay with probes (engine L) + monitor"),
+ "C11": ("Coq: one fresh worker per effect handed to the pool, whose first step runs it in its own context; after stop() "
+         "nothing runs (C04 finality). Partial: exactly-once over histories and Effect::Action ordering are decided by "
+         "engine L (four effect kinds, panics, thunks dispatching, stop before/after spawn) and the C11 monitor; effects of "
+         "backlog actions skipped after stop() took the pool (F4) is a listed known finding, witnessed in Coq and on the real code.",
+         "5 C11", "Coq spawn/finality lemmas + lockstep schedule replay (engine L) + monitor with known class F4"),
+ "C13": ("Coq: the exact enabledness of every waiting step (wait-for edges) and the steps that never wait; by evaluation, a "
+         "reachable world in which no thread can step after an iterator was released early (known finding F5, also replayed "
+         "on the real code). Partial: deadlock freedom of all other worlds is not yet a theorem; engine L probes every "
+         "blocking edge and reports any thread that does not arrive where the model says it can run (api_mix family over the "
+         "whole API, 2-4 threads).", "5 C13",
+         "Coq enabledness characterisation + refuted witness + lockstep replay with probes (engine L) + stuck-thread monitor"),
+ "C14": ("Coq: what next() has yielded is exactly the prefix (BlockOnFull) of what was forwarded to the iterator since its "
+         "creation, in order, no gap or repeat; None is final. Partial: relation to the notifying actions and the end of "
+         "stream after stop() are decided by engine L (consumer thread racing producers and stop) and the C14 monitor.",
+         "5 C14", "Coq channel-stream invariant + lockstep schedule replay (engine L) + stream monitor"),
+ "C18": ("Coq: every step leaves every counter non-decreasing; in every reachable world received/dropped/reduced/"
+         "middleware/error counters equal the corresponding totals over the history; the balance received + dropped = "
+         "entered + rejected (+ marker + subscription-channel drops) whenever the queue is empty. Partial: effect_issued. "
+         "Engines S/L compare all public counters with the model at every get_metrics and at the end.", "5 C18",
+         "Coq counter invariants + exact differential comparison (engines S, L) + balance monitor"),
+ "C19": ("Coq: the model of two stores is a product; a step of one leaves the other's content and enabledness unchanged, and "
+         "projections of interleaved runs are runs of the single store (so every per-store theorem applies). The substance is "
+         "the correspondence: engine F runs pairs of real stores in one process (equal names and types, a subscriber of A "
+         "dispatching into a slow, small B) and judges each store alone; engine L runs single stores.", "5 C19",
+         "Coq product/frame theorem + paired free-running stores judged per store (engine F) + lockstep (engine L)"),
+})
 REASON_TODO = "check not built yet in this revision (planned: see DESIGN.md section 5)"
 
 props = [json.loads(l) for l in open(os.path.join(ROOT, "properties.jsonl"))]
